@@ -28,20 +28,36 @@ import (
 //     directly followed by `defer X.<lock>.Unlock()` precedes it (and it is not inside a `go`
 //     statement), or when the function is a requires-lock helper: it is never used as a value and
 //     every reachable call site is itself guarded (greatest fixed point);
-//   - RLock is a different guard ("<lock>.R"); a Lock without the deferred Unlock, an acquisition
-//     with a guarded call site (nesting) and a second Lock in one function are reported as such,
-//     and the obligations in Props/C10.lean fail on them.
+//   - RLock is a different guard ("<lock>.R"; a helper reached under both: "<lock>+<lock>.R"); a
+//     Lock without the deferred Unlock, an acquisition with a guarded call site (nesting) and a
+//     second Lock in one function are reported as such, and the obligations in Props/C10.lean
+//     fail on them;
+//   - published reads: a read of a mutated location outside every lock (fields of the schemas a
+//     Schema() call returned). Such a read is "dominated" when an obtainer — a function that
+//     acquires the cache lock, or one that unconditionally calls an obtainer — has been called
+//     earlier in the same function, or when every call site of its function is guarded or
+//     dominated (greatest fixed point): the goroutine has been through the lock before it can
+//     hold the reference;
+//   - shared state: every package-level variable of every (hand-written) package of this module
+//     that the codec imports, and every field of every struct type that can be reached through
+//     the static types of those variables, of Codec and of Reflector ("shared types"; an interface
+//     stands for every implementing type of the analysed packages). Writes in functions reachable
+//     from the entry points are "on the path"; writes only reachable from constructors
+//     (NewCodec, the CodecOptions, j5reflect.New…, NewSchemaCache) and package initialisation are
+//     construction. Generated files (protobuf-go output) are not analysed: that is protobuf-go's
+//     own thread safety.
 func init() { extractors["locks"] = extractLocks }
 
 const lkModule = "github.com/pentops/j5"
 
-var lkDirs = []string{"lib/j5schema", "lib/j5reflect", "internal/codec"}
+var lkDirs = []string{"lib/j5schema", "lib/j5reflect", "internal/codec", "lib/j5codec"}
 
 type lkImporter struct {
 	fset  *token.FileSet
 	pkgs  map[string]*types.Package
 	files map[string][]*ast.File
 	info  *types.Info
+	order []string // module packages in the order in which their type check finished
 }
 
 func (im *lkImporter) Import(path string) (*types.Package, error) {
@@ -83,6 +99,7 @@ func (im *lkImporter) Import(path string) (*types.Package, error) {
 	p, _ := conf.Check(path, im.fset, files, im.info)
 	im.pkgs[path] = p
 	im.files[path] = files
+	im.order = append(im.order, path)
 	return p, nil
 }
 
@@ -99,12 +116,16 @@ type lkFn struct {
 	calls    []lkCall
 	acc      []lkAcc
 	escapes  bool
+	isInit   bool // func init() or the synthetic function holding a package's variable initialisers
+	ctor     bool // returns *Codec, *Reflector, *SchemaCache or a CodecOption
 }
 type lkCall struct {
-	to    []*lkFn
-	pos   token.Pos
-	inGo  bool
-	named string
+	to     []*lkFn
+	pos    token.Pos
+	end    token.Pos
+	inGo   bool
+	named  string
+	uncond bool // evaluated whenever the function gets past the top-level statement it is in
 }
 type lkAcc struct {
 	loc   string
@@ -113,6 +134,7 @@ type lkAcc struct {
 	pos   token.Pos
 	inGo  bool
 	line  int
+	once  bool // lexically inside the function literal of a sync.Once Do call
 }
 
 func isFreshExpr(e ast.Expr) bool {
@@ -152,37 +174,123 @@ func lockCall(e ast.Expr) (field, method string) {
 }
 
 type lkCtx struct {
-	im       *lkImporter
-	locOf    map[*types.Var]string // field object -> "Struct.field"
-	locMap   map[string]bool
-	locOwner map[string]bool // the struct of the location declares a mutex
-	locNames map[string]bool // bare field names of locations
-	globals  map[*types.Var]string // package-level variables of the analysed packages
-	fnOf     map[*types.Func]*lkFn
-	byName   map[string][]*lkFn
+	im        *lkImporter
+	locOf     map[*types.Var]string // field object -> "Struct.field"
+	locMap    map[string]bool
+	locOwner  map[string]bool       // the struct of the location declares a mutex
+	locNames  map[string]bool       // bare field names of locations
+	globals   map[*types.Var]string // package-level variables of the analysed packages
+	fnOf      map[*types.Func]*lkFn
+	byName    map[string][]*lkFn
+	onceNames map[string]bool // names of variables / fields declared as sync.Once
+}
+
+type lkStruct struct {
+	name    string // short package + "." + type name
+	short   string
+	named   *types.Named
+	st      *types.Struct
+	mutexes []string // names of the sync.Mutex / sync.RWMutex fields (from the syntax)
+}
+
+func containerKind(t types.Type) string {
+	switch u := t.Underlying().(type) {
+	case *types.Map:
+		return "map"
+	case *types.Slice:
+		return "slice"
+	case *types.Pointer:
+		return "pointer"
+	case *types.Signature:
+		return "func"
+	case *types.Interface:
+		return "interface"
+	case *types.Chan:
+		return "chan"
+	case *types.Basic:
+		if u.Kind() == types.Invalid {
+			return "foreign"
+		}
+		return "value"
+	}
+	return "value"
 }
 
 func extractLocks(w *strings.Builder) error {
 	im := &lkImporter{fset: token.NewFileSet(), pkgs: map[string]*types.Package{}, files: map[string][]*ast.File{},
 		info: &types.Info{Selections: map[*ast.SelectorExpr]*types.Selection{}, Uses: map[*ast.Ident]types.Object{}, Defs: map[*ast.Ident]types.Object{}}}
 	cx := &lkCtx{im: im, locOf: map[*types.Var]string{}, locMap: map[string]bool{}, locOwner: map[string]bool{}, locNames: map[string]bool{}, globals: map[*types.Var]string{},
-		fnOf: map[*types.Func]*lkFn{}, byName: map[string][]*lkFn{}}
-	var fns []*lkFn
+		fnOf: map[*types.Func]*lkFn{}, byName: map[string][]*lkFn{}, onceNames: map[string]bool{}}
 	for _, dir := range lkDirs {
 		path := lkModule + "/" + dir
 		p, err := im.Import(path)
 		if err != nil || p == nil {
 			return fmt.Errorf("cannot load %s: %v", path, err)
 		}
-		short := filepath.Base(dir)
-		mutexStructs := map[string]bool{} // `sync` is a stand-in package, so look at the syntax
+	}
+	// every package of this module the codec (transitively) imports, in a stable order
+	paths := append([]string{}, im.order...)
+	sort.Strings(paths)
+	shortOf := map[string]string{}
+	usedShort := map[string]int{}
+	for _, path := range paths {
+		usedShort[filepath.Base(path)]++
+	}
+	for _, path := range paths {
+		short := filepath.Base(path)
+		if usedShort[short] > 1 {
+			short = filepath.Base(filepath.Dir(filepath.Dir(path))) + "/" + short
+		}
+		shortOf[path] = short
+	}
+	var fns []*lkFn
+	var structs []*lkStruct
+	structOf := map[*types.TypeName]*lkStruct{}
+	type gvar struct {
+		v     *types.Var
+		loc   string
+		short string
+	}
+	var gvars []gvar
+	initialised := map[types.Object]string{} // package-level variable -> the synthetic initialiser function
+	generatedFiles, generatedVars, generatedStructs := 0, 0, 0
+	var namedTypes []*types.Named // every named type of the hand-written files (for interface satisfaction)
+	for _, path := range paths {
+		p := im.pkgs[path]
+		short := shortOf[path]
+		genPos := map[string]bool{}          // file names of generated files
+		mutexFields := map[string][]string{} // `sync` is a stand-in package, so look at the syntax
 		for _, f := range im.files[path] {
+			fname := im.fset.Position(f.Pos()).Filename
+			if ast.IsGenerated(f) {
+				genPos[fname] = true
+				generatedFiles++
+			}
 			ast.Inspect(f, func(n ast.Node) bool {
+				switch x := n.(type) {
+				case *ast.Field:
+					if exprString(x.Type) == "sync.Once" {
+						for _, n := range x.Names {
+							cx.onceNames[n.Name] = true
+						}
+					}
+				case *ast.ValueSpec:
+					if x.Type != nil && exprString(x.Type) == "sync.Once" {
+						for _, n := range x.Names {
+							cx.onceNames[n.Name] = true
+						}
+					}
+				}
 				if ts, ok := n.(*ast.TypeSpec); ok {
 					if st, ok := ts.Type.(*ast.StructType); ok {
 						for _, fl := range st.Fields.List {
 							if t := strings.TrimPrefix(exprString(fl.Type), "*"); t == "sync.Mutex" || t == "sync.RWMutex" {
-								mutexStructs[ts.Name.Name] = true
+								for _, n := range fl.Names {
+									mutexFields[ts.Name.Name] = append(mutexFields[ts.Name.Name], n.Name)
+								}
+								if len(fl.Names) == 0 {
+									mutexFields[ts.Name.Name] = append(mutexFields[ts.Name.Name], "(embedded)")
+								}
 							}
 						}
 					}
@@ -190,38 +298,73 @@ func extractLocks(w *strings.Builder) error {
 				return true
 			})
 		}
+		isGen := func(pos token.Pos) bool { return genPos[im.fset.Position(pos).Filename] }
 		for _, name := range p.Scope().Names() {
-			if v, ok := p.Scope().Lookup(name).(*types.Var); ok {
+			obj := p.Scope().Lookup(name)
+			if v, ok := obj.(*types.Var); ok {
+				if isGen(v.Pos()) {
+					generatedVars++
+					continue
+				}
+				if name == "_" {
+					continue
+				}
 				loc := "var " + short + "." + name
 				cx.globals[v] = loc
 				_, isMap := v.Type().Underlying().(*types.Map)
 				cx.locMap[loc] = isMap
 				cx.locOwner[loc] = true // a package-level variable is shared by everybody: always must-guard
+				gvars = append(gvars, gvar{v, loc, short})
 			}
-			tn, ok := p.Scope().Lookup(name).(*types.TypeName)
+			tn, ok := obj.(*types.TypeName)
 			if !ok {
 				continue
 			}
+			named, _ := tn.Type().(*types.Named)
+			if named != nil && !isGen(tn.Pos()) {
+				namedTypes = append(namedTypes, named)
+			}
 			st, ok := tn.Type().Underlying().(*types.Struct)
-			if !ok || !(short == "j5schema" || name == "Codec" || name == "Reflector") {
+			if !ok || named == nil {
 				continue
 			}
-			hasMutex := mutexStructs[name]
-			for i := 0; i < st.NumFields(); i++ {
-				f := st.Field(i)
-				if f.Embedded() {
+			if isGen(tn.Pos()) {
+				generatedStructs++
+				continue
+			}
+			ls := &lkStruct{name: short + "." + name, short: short, named: named, st: st, mutexes: mutexFields[name]}
+			structs = append(structs, ls)
+			structOf[tn] = ls
+		}
+		var initFn *lkFn
+		for _, f := range im.files[path] {
+			if ast.IsGenerated(f) {
+				continue
+			}
+			for _, d := range f.Decls {
+				if gd, ok := d.(*ast.GenDecl); ok && gd.Tok == token.VAR {
+					// package-level initialisers run once, before main: a synthetic init function
+					for _, sp := range gd.Specs {
+						vs := sp.(*ast.ValueSpec)
+						if len(vs.Values) == 0 {
+							continue
+						}
+						if initFn == nil {
+							initFn = &lkFn{key: "(var initialisers)", pkg: short, isInit: true,
+								decl: &ast.FuncDecl{Name: ast.NewIdent("(var initialisers)"), Type: &ast.FuncType{Params: &ast.FieldList{}}, Body: &ast.BlockStmt{}}}
+							fns = append(fns, initFn)
+						}
+						for _, val := range vs.Values {
+							initFn.decl.Body.List = append(initFn.decl.Body.List, &ast.ExprStmt{X: val})
+						}
+						for _, n := range vs.Names {
+							if o := im.info.Defs[n]; o != nil {
+								initialised[o] = short + ".(var initialiser)"
+							}
+						}
+					}
 					continue
 				}
-				loc := name + "." + f.Name()
-				cx.locOwner[loc] = hasMutex
-				cx.locOf[f] = loc
-				_, isMap := f.Type().Underlying().(*types.Map)
-				cx.locMap[loc] = isMap
-				cx.locNames[f.Name()] = true
-			}
-		}
-		for _, f := range im.files[path] {
-			for _, d := range f.Decls {
 				fd, ok := d.(*ast.FuncDecl)
 				if !ok || fd.Body == nil {
 					continue
@@ -229,11 +372,19 @@ func extractLocks(w *strings.Builder) error {
 				fn := &lkFn{key: fd.Name.Name, pkg: short, decl: fd}
 				if fd.Recv != nil && len(fd.Recv.List) == 1 {
 					fn.key = strings.TrimPrefix(exprString(fd.Recv.List[0].Type), "*") + "." + fd.Name.Name
+				} else if fd.Name.Name == "init" {
+					fn.isInit = true
 				}
 				for _, p := range fd.Type.Params.List {
 					fn.nargs += max(1, len(p.Names))
 					if _, ok := p.Type.(*ast.Ellipsis); ok {
 						fn.variadic = true
+					}
+				}
+				if fd.Recv == nil && fd.Type.Results != nil && len(fd.Type.Results.List) >= 1 {
+					switch strings.TrimPrefix(exprString(fd.Type.Results.List[0].Type), "*") {
+					case "Codec", "codec.Codec", "Reflector", "SchemaCache", "CodecOption", "codec.CodecOption", "Option":
+						fn.ctor = true
 					}
 				}
 				if o, ok := im.info.Defs[fd.Name].(*types.Func); ok {
@@ -245,42 +396,143 @@ func extractLocks(w *strings.Builder) error {
 			}
 		}
 	}
+	// ---- shared types: reachable through static types from the package-level variables, Codec
+	// and Reflector; an interface of this module stands for every implementing named type
+	sharedNamed := map[*types.Named]bool{}
+	opaque := map[string]bool{} // shared fields / variables of type `any`: could hold anything
+	var visit func(t types.Type, from string)
+	seenT := map[types.Type]bool{}
+	visit = func(t types.Type, from string) {
+		if t == nil || seenT[t] {
+			return
+		}
+		seenT[t] = true
+		switch u := t.(type) {
+		case *types.Named:
+			if tn := u.Obj(); tn != nil && tn.Pkg() != nil && strings.HasPrefix(tn.Pkg().Path(), lkModule) {
+				sharedNamed[u] = true
+			}
+			visit(u.Underlying(), from)
+		case *types.Pointer:
+			visit(u.Elem(), from)
+		case *types.Slice:
+			visit(u.Elem(), from)
+		case *types.Array:
+			visit(u.Elem(), from)
+		case *types.Map:
+			visit(u.Key(), from)
+			visit(u.Elem(), from)
+		case *types.Chan:
+			visit(u.Elem(), from)
+		case *types.Struct:
+			for i := 0; i < u.NumFields(); i++ {
+				visit(u.Field(i).Type(), from)
+			}
+		case *types.Interface:
+			if u.NumMethods() == 0 {
+				opaque[from] = true
+				return
+			}
+			for _, n := range namedTypes {
+				if types.IsInterface(n) {
+					continue
+				}
+				if types.Implements(n, u) || types.Implements(types.NewPointer(n), u) {
+					visit(n, from)
+				}
+			}
+		}
+	}
+	for _, g := range gvars {
+		visit(g.v.Type(), g.loc)
+	}
+	for _, ls := range structs {
+		if (ls.short == "codec" && ls.named.Obj().Name() == "Codec") || (ls.short == "j5reflect" && ls.named.Obj().Name() == "Reflector") {
+			visit(ls.named, ls.name)
+		}
+	}
+	// locations = fields of shared struct types (plus, as before, every struct of lib/j5schema)
+	cacheLocks := []string{}
+	for _, ls := range structs {
+		if !(sharedNamed[ls.named] || ls.short == "j5schema") {
+			continue
+		}
+		name := ls.named.Obj().Name()
+		if ls.short != "j5schema" && ls.short != "j5reflect" && ls.short != "codec" {
+			name = ls.name
+		}
+		hasMutex := len(ls.mutexes) > 0
+		if ls.short == "j5schema" && name == "SchemaCache" {
+			cacheLocks = ls.mutexes
+		}
+		for i := 0; i < ls.st.NumFields(); i++ {
+			f := ls.st.Field(i)
+			if f.Embedded() {
+				continue
+			}
+			loc := name + "." + f.Name()
+			cx.locOwner[loc] = hasMutex
+			cx.locOf[f] = loc
+			_, isMap := f.Type().Underlying().(*types.Map)
+			cx.locMap[loc] = isMap
+			cx.locNames[f.Name()] = true
+		}
+	}
 	for _, fn := range fns {
 		cx.scan(fn)
 	}
 	guardedAt := func(fn *lkFn, pos token.Pos, inGo bool) bool {
 		return fn.lockEnd != token.NoPos && fn.deferred && pos > fn.lockEnd && !inGo
 	}
-	reach := map[*lkFn]bool{}
-	var todo []*lkFn
-	rootsFound := 0
-	for _, fn := range fns {
-		if fn.key == "Codec.ProtoToJSON" || fn.key == "Codec.JSONToProto" || fn.key == "Codec.QueryToProto" {
-			reach[fn] = true
-			todo = append(todo, fn)
-			rootsFound++
+	closure := func(roots []*lkFn) map[*lkFn]bool {
+		reach := map[*lkFn]bool{}
+		todo := append([]*lkFn{}, roots...)
+		for _, r := range roots {
+			reach[r] = true
 		}
-	}
-	for len(todo) > 0 {
-		fn := todo[0]
-		todo = todo[1:]
-		for _, c := range fn.calls {
-			for _, g := range c.to {
-				if !reach[g] {
-					reach[g] = true
-					todo = append(todo, g)
+		for len(todo) > 0 {
+			fn := todo[0]
+			todo = todo[1:]
+			for _, c := range fn.calls {
+				for _, g := range c.to {
+					if !reach[g] {
+						reach[g] = true
+						todo = append(todo, g)
+					}
 				}
 			}
 		}
+		return reach
 	}
+	var roots, extraRoots, ctorRoots []*lkFn
+	rootsFound := 0
+	var extraNames []string
+	for _, fn := range fns {
+		switch {
+		case fn.pkg == "codec" && (fn.key == "Codec.ProtoToJSON" || fn.key == "Codec.JSONToProto" || fn.key == "Codec.QueryToProto"):
+			roots = append(roots, fn)
+			rootsFound++
+		case fn.pkg == "j5reflect" && strings.HasPrefix(fn.key, "Reflector.") && ast.IsExported(fn.decl.Name.Name):
+			extraRoots = append(extraRoots, fn)
+			extraNames = append(extraNames, fn.pkg+"."+fn.key)
+		case fn.isInit || (fn.ctor && (fn.pkg == "codec" || fn.pkg == "j5codec" || fn.pkg == "j5reflect" || fn.key == "NewSchemaCache")):
+			ctorRoots = append(ctorRoots, fn)
+		}
+	}
+	reach := closure(append(append([]*lkFn{}, roots...), extraRoots...))
+	reachCtor := closure(ctorRoots)
 	type site struct {
 		from *lkFn
 		c    lkCall
 	}
 	sites := map[*lkFn][]site{}
 	rl := map[*lkFn]bool{}
+	isRoot := map[*lkFn]bool{}
+	for _, r := range append(append([]*lkFn{}, roots...), extraRoots...) {
+		isRoot[r] = true
+	}
 	for fn := range reach {
-		rl[fn] = !fn.escapes && !strings.HasPrefix(fn.key, "Codec.")
+		rl[fn] = !fn.escapes && !isRoot[fn]
 		for _, c := range fn.calls {
 			for _, g := range c.to {
 				sites[g] = append(sites[g], site{fn, c})
@@ -348,8 +600,6 @@ func extractLocks(w *strings.Builder) error {
 		sorted = append(sorted, fn)
 	}
 	sort.Slice(sorted, func(a, b int) bool { return sorted[a].pkg+sorted[a].key < sorted[b].pkg+sorted[b].key })
-	var rows []string
-	seen := map[string]bool{}
 	var lockNames []string
 	lockID := func(n string) int {
 		for i, x := range lockNames {
@@ -365,30 +615,148 @@ func extractLocks(w *strings.Builder) error {
 			lockID(fn.lockName)
 		}
 	}
+	guardOf := func(fn *lkFn, a lkAcc) (string, bool) { // lock name, guarded
+		switch {
+		case guardedAt(fn, a.pos, a.inGo):
+			return fn.lockName, true
+		case rl[fn] && !a.inGo:
+			held := map[string]bool{}
+			heldBy(fn, map[*lkFn]bool{}, held)
+			return strings.Join(sortedKeys(held), "+"), true
+		}
+		return "", false
+	}
+	// ---- published reads: obtainers and domination
+	cacheLock := ""
+	if len(cacheLocks) == 1 {
+		cacheLock = cacheLocks[0]
+	}
+	obtainer := map[*lkFn]bool{}
+	for fn := range reach {
+		if fn.lockEnd != token.NoPos && fn.deferred && cacheLock != "" && strings.TrimSuffix(fn.lockName, ".R") == cacheLock {
+			obtainer[fn] = true
+		}
+	}
+	for changed := true; changed; { // least fixed point: unconditionally calls an obtainer
+		changed = false
+		for fn := range reach {
+			if obtainer[fn] {
+				continue
+			}
+			for _, c := range fn.calls {
+				if !c.uncond || c.inGo || len(c.to) == 0 {
+					continue
+				}
+				all := true
+				for _, g := range c.to {
+					if !obtainer[g] {
+						all = false
+					}
+				}
+				if all {
+					obtainer[fn], changed = true, true
+					break
+				}
+			}
+		}
+	}
+	obtainedBefore := func(fn *lkFn, pos token.Pos) (string, bool) {
+		for _, c := range fn.calls {
+			if !c.uncond || c.inGo || len(c.to) == 0 || c.end >= pos {
+				continue
+			}
+			all := true
+			for _, g := range c.to {
+				if !obtainer[g] {
+					all = false
+				}
+			}
+			if all {
+				return c.to[0].pkg + "." + c.to[0].key, true
+			}
+		}
+		return "", false
+	}
+	dom := map[*lkFn]bool{}
+	for fn := range reach {
+		dom[fn] = !fn.escapes && !isRoot[fn]
+	}
+	for changed := true; changed; {
+		changed = false
+		for fn := range reach {
+			if !dom[fn] {
+				continue
+			}
+			ok := len(sites[fn]) > 0
+			for _, s := range sites[fn] {
+				_, ob := obtainedBefore(s.from, s.c.pos)
+				if s.c.inGo || !(guardedAt(s.from, s.c.pos, false) || rl[s.from] || ob || dom[s.from]) {
+					ok = false
+				}
+			}
+			if !ok {
+				dom[fn], changed = false, true
+			}
+		}
+	}
+	var viaOf func(fn *lkFn, seen map[*lkFn]bool, out map[string]bool)
+	viaOf = func(fn *lkFn, seen map[*lkFn]bool, out map[string]bool) {
+		if seen[fn] {
+			return
+		}
+		seen[fn] = true
+		for _, s := range sites[fn] {
+			if v, ok := obtainedBefore(s.from, s.c.pos); ok {
+				out[v] = true
+			} else if guardedAt(s.from, s.c.pos, false) || rl[s.from] {
+				out["(inside the critical section)"] = true
+			} else {
+				viaOf(s.from, seen, out)
+			}
+		}
+	}
+	var rows, pubRows []string
+	seen := map[string]bool{}
 	for _, fn := range sorted {
 		for _, a := range fn.acc {
 			if !mutated[a.loc] {
 				continue
 			}
 			guard := "none"
-			switch {
-			case guardedAt(fn, a.pos, a.inGo):
-				guard = fmt.Sprintf("some %d", lockID(fn.lockName))
-			case rl[fn] && !a.inGo:
-				held := map[string]bool{}
-				heldBy(fn, map[*lkFn]bool{}, held)
-				guard = fmt.Sprintf("some %d", lockID(strings.Join(sortedKeys(held), "+")))
+			lock, guarded := guardOf(fn, a)
+			if guarded {
+				guard = fmt.Sprintf("some %d", lockID(lock))
 			}
 			k := fmt.Sprint(a.loc, a.write, guard, fn.key)
 			if !seen[k] {
 				seen[k] = true
+				at := fmt.Sprintf("%s:%d", filepath.Base(im.fset.Position(a.pos).Filename), a.line)
 				rows = append(rows, fmt.Sprintf("  ⟨%d, %s, %s, %s, %s, %s, %s⟩", locIdx[a.loc], leanBool(a.isMap), leanBool(cx.locOwner[a.loc]), leanBool(a.write), guard,
-					leanStr(fn.pkg+"."+fn.key), leanStr(fmt.Sprintf("%s:%d", filepath.Base(im.fset.Position(a.pos).Filename), a.line))))
+					leanStr(fn.pkg+"."+fn.key), leanStr(at)))
+				if !guarded && !a.write && !a.isMap && !cx.locOwner[a.loc] {
+					via, ok := obtainedBefore(fn, a.pos)
+					if !ok && dom[fn] && !a.inGo {
+						vs := map[string]bool{}
+						viaOf(fn, map[*lkFn]bool{}, vs)
+						via, ok = strings.Join(sortedKeys(vs), ","), true
+					}
+					pubRows = append(pubRows, fmt.Sprintf("  ⟨%d, %s, %s, %s, %s⟩", locIdx[a.loc], leanStr(fn.pkg+"."+fn.key), leanStr(at), leanBool(ok), leanStr(via)))
+				}
 			}
 		}
 	}
 	fmt.Fprintf(w, "namespace J5V.Generated.Locks\n")
 	fmt.Fprintf(w, "def rootsFound : Nat := %d\n", rootsFound)
+	sort.Strings(extraNames)
+	fmt.Fprintf(w, "/-- further entry points: the exported methods of Reflector -/\ndef extraRoots : List String := %s\n", leanStrList(extraNames))
+	fmt.Fprintf(w, "/-- the packages of this module that were analysed (everything the codec imports) -/\ndef analysedPackages : List String := %s\n", leanStrList(func() []string {
+		var out []string
+		for _, p := range paths {
+			out = append(out, strings.TrimPrefix(p, lkModule+"/"))
+		}
+		return out
+	}()))
+	fmt.Fprintf(w, "def generatedFilesSkipped : Nat := %d\n", generatedFiles)
 	fmt.Fprintf(w, "/-- every location (Struct.field) that is written after construction on the codec path -/\n")
 	fmt.Fprintf(w, "def locations : List String := %s\n", leanStrList(locs))
 	unknown := 0
@@ -398,10 +766,20 @@ func extractLocks(w *strings.Builder) error {
 		}
 	}
 	fmt.Fprintf(w, "/-- locations that could not be typed (spelled like a shared field); must be 0 -/\ndef unknownLocations : Nat := %d\n", unknown)
-	fmt.Fprintf(w, "/-- guards: index = id used in `accesses` and `lockSites`; \"a+b\" = helper reached under different locks, \"\" = under none -/\n")
+	fmt.Fprintf(w, "/-- the mutex fields of SchemaCache; the discipline needs exactly one -/\ndef cacheLocks : List String := %s\n", leanStrList(cacheLocks))
+	fmt.Fprintf(w, "/-- guards: index = id used in `accesses` and `lockSites`; \"<l>.R\" = read lock; \"a+b\" = helper reached under different locks, \"\" = under none -/\n")
 	fmt.Fprintf(w, "def lockNames : List String := %s\n", leanStrList(lockNames))
-	fmt.Fprintf(w, "structure Access where\n  loc : Nat\n  isMap : Bool\n  lockOwner : Bool\n  write : Bool\n  guard : Option Nat\n  fn : String\n  at_ : String\n")
+	fmt.Fprintf(w, "structure Access where\n  loc : Nat\n  isMap : Bool\n  lockOwner : Bool\n  write : Bool\n  guard : Option Nat\n  fn : String\n  at_ : String\n  deriving DecidableEq, Repr\n")
 	fmt.Fprintf(w, "def accesses : List Access := [\n%s\n]\n", strings.Join(rows, ",\n"))
+	fmt.Fprintf(w, "/-- a read, outside every lock, of a location that is written under the lock: a field of a schema that a Schema() call returned. `dominated`: the goroutine has been through an obtainer (`via`) before it can execute the read -/\n")
+	fmt.Fprintf(w, "structure PublishedRead where\n  loc : Nat\n  fn : String\n  at_ : String\n  dominated : Bool\n  via : String\n  deriving DecidableEq, Repr\n")
+	fmt.Fprintf(w, "def publishedReads : List PublishedRead := [\n%s\n]\n", strings.Join(pubRows, ",\n"))
+	var obs []string
+	for fn := range obtainer {
+		obs = append(obs, fn.pkg+"."+fn.key)
+	}
+	sort.Strings(obs)
+	fmt.Fprintf(w, "/-- functions after whose return the goroutine has been through the cache lock -/\ndef obtainers : List String := %s\n", leanStrList(obs))
 	fmt.Fprintf(w, "structure LockSite where\n  fn : String\n  lock : Nat\n  deferredUnlock : Bool\n  nested : Bool\n  leaf : Bool\n")
 	var ls []string
 	for _, fn := range sorted {
@@ -425,6 +803,99 @@ func extractLocks(w *strings.Builder) error {
 	}
 	fmt.Fprintf(w, "def requiresLock : List String := %s\n", leanStrList(rls))
 	fmt.Fprintf(w, "def reachableFunctions : Nat := %d\n", len(reach))
+
+	// ---- shared state audit
+	type shared struct {
+		name, kind              string
+		read, written, guarded  bool
+		pathWriters, ctorWriter map[string]bool
+	}
+	sh := map[string]*shared{}
+	var shOrder []string
+	add := func(name, kind string) {
+		if sh[name] == nil {
+			sh[name] = &shared{name: name, kind: kind, guarded: true, pathWriters: map[string]bool{}, ctorWriter: map[string]bool{}}
+			shOrder = append(shOrder, name)
+		}
+	}
+	for _, g := range gvars {
+		add(g.loc, containerKind(g.v.Type()))
+		if who, ok := initialised[g.v]; ok {
+			sh[g.loc].ctorWriter[who] = true
+		}
+	}
+	for _, ls := range structs {
+		if !sharedNamed[ls.named] {
+			continue
+		}
+		for i := 0; i < ls.st.NumFields(); i++ {
+			f := ls.st.Field(i)
+			if loc, ok := cx.locOf[f]; ok {
+				add(loc, containerKind(f.Type()))
+			}
+		}
+	}
+	for _, fn := range fns {
+		if !reach[fn] && !reachCtor[fn] {
+			continue
+		}
+		for _, a := range fn.acc {
+			r := sh[a.loc]
+			if r == nil {
+				if strings.HasPrefix(a.loc, "?") || !a.write {
+					continue
+				}
+				add(a.loc, "value") // a written location of a type that is not shared by the static types (lib/j5schema helper structs)
+				r = sh[a.loc]
+			}
+			if !reach[fn] { // construction only
+				if a.write {
+					r.ctorWriter[fn.pkg+"."+fn.key] = true
+				}
+				continue
+			}
+			if !a.write {
+				r.read = true
+				continue
+			}
+			r.written = true
+			lock, g := guardOf(fn, a)
+			who := fn.pkg + "." + fn.key
+			switch {
+			case g && cacheLock != "" && lock == cacheLock:
+				who += " [" + lock + "]"
+			case a.once:
+				who += " [sync.Once]"
+			default:
+				r.guarded = false
+				who += " [UNGUARDED]"
+			}
+			r.pathWriters[who] = true
+		}
+	}
+	sort.Strings(shOrder)
+	var shRows []string
+	for _, n := range shOrder {
+		r := sh[n]
+		if strings.HasPrefix(n, "var ") && !r.read && !r.written && len(r.ctorWriter) == 0 {
+			continue // a variable nothing on the path or in a constructor touches
+		}
+		shRows = append(shRows, fmt.Sprintf("  ⟨%s, %s, %s, %s, %s, %s, %s⟩", leanStr(r.name), leanStr(r.kind), leanBool(r.read), leanBool(r.written), leanBool(r.guarded),
+			leanStrList(sortedKeys(r.pathWriters)), leanStrList(sortedKeys(r.ctorWriter))))
+	}
+	fmt.Fprintf(w, "/-- Shared state: every package-level variable the path or a constructor touches and every field of every struct type reachable (by static types) from those variables, Codec and Reflector. `writtenOnPath`: written by a function reachable from the entry points through anything but a private fresh object; `guarded`: every such write holds the write lock of the cache (or sits in a sync.Once). A row with `writtenOnPath = false` is immutable after construction: its only writers are composite literals and `ctorWriters`. -/\n")
+	fmt.Fprintf(w, "structure SharedState where\n  name : String\n  kind : String\n  readOnPath : Bool\n  writtenOnPath : Bool\n  guarded : Bool\n  pathWriters : List String\n  ctorWriters : List String\n")
+	fmt.Fprintf(w, "def sharedState : List SharedState := [\n%s\n]\n", strings.Join(shRows, ",\n"))
+	fmt.Fprintf(w, "/-- shared variables / fields of type `any`, which could hold a value of any type; must be empty -/\ndef opaqueShared : List String := %s\n", leanStrList(sortedKeys(opaque)))
+	var sts []string
+	for _, ls := range structs {
+		if sharedNamed[ls.named] {
+			sts = append(sts, ls.name)
+		}
+	}
+	sort.Strings(sts)
+	fmt.Fprintf(w, "def sharedTypes : List String := %s\n", leanStrList(sts))
+	fmt.Fprintf(w, "def perCallStructTypes : Nat := %d\n", len(structs)-len(sts))
 	fmt.Fprintf(w, "end J5V.Generated.Locks\n")
 	return nil
 }
@@ -518,6 +989,62 @@ func (cx *lkCtx) scan(fn *lkFn) {
 		for _, n := range l.Names {
 			notFresh[n.Name] = true
 		}
+	}
+	// calls that are evaluated whenever control gets past the top-level statement they are in
+	uncond := map[*ast.CallExpr]bool{}
+	markCalls := func(n ast.Node) {
+		if n == nil {
+			return
+		}
+		ast.Inspect(n, func(m ast.Node) bool {
+			switch x := m.(type) {
+			case *ast.FuncLit:
+				return false
+			case *ast.CallExpr:
+				uncond[x] = true
+			}
+			return true
+		})
+	}
+	for _, st := range body.List {
+		switch x := st.(type) {
+		case *ast.ExprStmt, *ast.AssignStmt, *ast.DeclStmt:
+			markCalls(x)
+		case *ast.IfStmt:
+			markCalls(x.Init)
+			markCalls(x.Cond)
+		case *ast.SwitchStmt:
+			markCalls(x.Init)
+			markCalls(x.Tag)
+		}
+	}
+	// the function literal of a sync.Once Do call
+	type span struct{ from, to token.Pos }
+	var onceSpans []span
+	ast.Inspect(body, func(n ast.Node) bool {
+		if c, ok := n.(*ast.CallExpr); ok && len(c.Args) == 1 {
+			if sel, ok := c.Fun.(*ast.SelectorExpr); ok && sel.Sel.Name == "Do" {
+				name := ""
+				switch x := sel.X.(type) {
+				case *ast.Ident:
+					name = x.Name
+				case *ast.SelectorExpr:
+					name = x.Sel.Name
+				}
+				if lit, ok := c.Args[0].(*ast.FuncLit); ok && cx.onceNames[name] {
+					onceSpans = append(onceSpans, span{lit.Pos(), lit.End()})
+				}
+			}
+		}
+		return true
+	})
+	inOnce := func(p token.Pos) bool {
+		for _, s := range onceSpans {
+			if p >= s.from && p < s.to {
+				return true
+			}
+		}
+		return false
 	}
 	calledAs := map[ast.Expr]bool{}
 	locate := func(s *ast.SelectorExpr) (string, bool, bool) { // location, isMap, found
@@ -616,7 +1143,7 @@ func (cx *lkCtx) scan(fn *lkFn) {
 	writtenIdent := map[*ast.Ident]bool{}
 	write := func(e ast.Expr, inGo bool) {
 		if loc, ok := global(e); ok {
-			fn.acc = append(fn.acc, lkAcc{loc, cx.locMap[loc], true, e.Pos(), inGo, fset.Position(e.Pos()).Line})
+			fn.acc = append(fn.acc, lkAcc{loc, cx.locMap[loc], true, e.Pos(), inGo, fset.Position(e.Pos()).Line, inOnce(e.Pos())})
 			ast.Inspect(e, func(n ast.Node) bool {
 				if id, ok := n.(*ast.Ident); ok {
 					writtenIdent[id] = true
@@ -637,7 +1164,7 @@ func (cx *lkCtx) scan(fn *lkFn) {
 		if id, ok := s.X.(*ast.Ident); ok && fresh[id.Name] && !notFresh[id.Name] {
 			return // construction of a private local object
 		}
-		fn.acc = append(fn.acc, lkAcc{loc, isMap, true, s.Pos(), inGo, fset.Position(s.Pos()).Line})
+		fn.acc = append(fn.acc, lkAcc{loc, isMap, true, s.Pos(), inGo, fset.Position(s.Pos()).Line, inOnce(s.Pos())})
 	}
 	walk = func(n ast.Node, inGo bool) {
 		ast.Inspect(n, func(m ast.Node) bool {
@@ -657,11 +1184,11 @@ func (cx *lkCtx) scan(fn *lkFn) {
 					write(x.Args[0], inGo)
 				}
 				if to, name := callees(x); len(to) > 0 {
-					fn.calls = append(fn.calls, lkCall{to, x.Pos(), inGo, name})
+					fn.calls = append(fn.calls, lkCall{to, x.Pos(), x.End(), inGo, name, uncond[x]})
 				}
 			case *ast.SelectorExpr:
 				if loc, isMap, ok := locate(x); ok && !written[x] {
-					fn.acc = append(fn.acc, lkAcc{loc, isMap, false, x.Pos(), inGo, fset.Position(x.Pos()).Line})
+					fn.acc = append(fn.acc, lkAcc{loc, isMap, false, x.Pos(), inGo, fset.Position(x.Pos()).Line, false})
 				}
 				isSel[x.Sel] = true
 				if fo, ok := info.Uses[x.Sel].(*types.Func); ok && cx.fnOf[fo] != nil && !calledAs[x] {
@@ -670,7 +1197,7 @@ func (cx *lkCtx) scan(fn *lkFn) {
 			case *ast.Ident:
 				if v, ok := info.Uses[x].(*types.Var); ok && !writtenIdent[x] {
 					if loc, ok := cx.globals[v]; ok {
-						fn.acc = append(fn.acc, lkAcc{loc, cx.locMap[loc], false, x.Pos(), inGo, fset.Position(x.Pos()).Line})
+						fn.acc = append(fn.acc, lkAcc{loc, cx.locMap[loc], false, x.Pos(), inGo, fset.Position(x.Pos()).Line, false})
 					}
 				}
 				if fo, ok := info.Uses[x].(*types.Func); ok && cx.fnOf[fo] != nil && !calledAs[x] && !isSel[x] {
